@@ -67,12 +67,14 @@ pub fn c05_stride_seq3_clear() {
 }
 
 // @h prop=C05 tier=thorough kind=proof inst="Stride" bounds="5 unconstrained usize pushes from Empty" desc="as c05_stride_seq3, longer"
+#[cfg(feature = "thorough")]
 #[cfg_attr(kani, kani::proof, kani::unwind(7))]
 pub fn c05_stride_seq5() {
     stride_seq::<KT>(KT);
 }
 
 // @h prop=C05 tier=thorough kind=proof inst="Stride" bounds="5 unconstrained usize pushes, clear before the 3rd push" desc="as c05_stride_seq5 with a clear in the middle"
+#[cfg(feature = "thorough")]
 #[cfg_attr(kani, kani::proof, kani::unwind(7))]
 pub fn c05_stride_seq5_clear() {
     stride_seq::<KT>(2);
@@ -113,12 +115,14 @@ fn stride_step(saturated: bool) {
 }
 
 // @h prop=C05 tier=thorough kind=proof inst="Stride::Striding(s,c)" bounds="one push from any valid Striding state, all fields and the item full 64-bit" desc="one-step inductive obligation: acceptance rule, state untouched on reject, earlier elements unchanged"
+#[cfg(feature = "thorough")]
 #[cfg_attr(kani, kani::proof, kani::unwind(2))]
 pub fn c05_stride_step_striding() {
     stride_step(false);
 }
 
 // @h prop=C05 tier=thorough kind=proof inst="Stride::Saturated(s,c,r)" bounds="one push from any valid Saturated state, all fields and the item full 64-bit" desc="one-step inductive obligation"
+#[cfg(feature = "thorough")]
 #[cfg_attr(kani, kani::proof, kani::unwind(2))]
 pub fn c05_stride_step_saturated() {
     stride_step(true);
@@ -185,54 +189,59 @@ fn container_seq_split<C: IndexContainer<usize>, const N: usize>(mut c: C, use_e
 }
 
 // @h prop=C05 tier=thorough kind=proof engine=paths inst="IndexOptimized<Vec<u32>,Vec<u64>>" bounds="pushes 0, x, y with x, y unconstrained usize, from empty" desc="len/is_empty/index/iter vs model across stride->spill and u32->u64 switches (half of the input space: first value 0)"
+#[cfg(feature = "thorough")]
 #[cfg_attr(kani, kani::proof, kani::unwind(5))]
 pub fn c05_indexopt_seq3_zero() {
     container_seq_split::<IndexOptimized, K>(IndexOptimized::default(), false, usize::MAX, Some(true));
 }
 
-// @h prop=C05 tier=quick kind=proof inst="IndexOptimized<Vec<u32>,Vec<u64>>" bounds="2 unconstrained usize pushes from empty" desc="prefix length 2 of c05_indexopt_seq3_*"
+// @h prop=C05 tier=quick kind=proof engine=both inst="IndexOptimized<Vec<u32>,Vec<u64>>" bounds="2 unconstrained usize pushes from empty" desc="prefix length 2 of c05_indexopt_seq3_*"
 #[cfg_attr(kani, kani::proof, kani::unwind(5))]
 pub fn c05_indexopt_seq2() {
     container_seq::<IndexOptimized, 2>(IndexOptimized::default(), false, usize::MAX);
 }
 
-// @h prop=C05 tier=quick kind=proof inst="IndexList<Vec<u32>,Vec<u64>>" bounds="2 unconstrained usize pushes from empty" desc="prefix length 2 of c05_indexlist_seq3"
+// @h prop=C05 tier=quick kind=proof engine=both inst="IndexList<Vec<u32>,Vec<u64>>" bounds="2 unconstrained usize pushes from empty" desc="prefix length 2 of c05_indexlist_seq3"
 #[cfg_attr(kani, kani::proof, kani::unwind(5))]
 pub fn c05_indexlist_seq2() {
     container_seq::<IndexList<Vec<u32>, Vec<u64>>, 2>(IndexList::default(), false, usize::MAX);
 }
 
 // @h prop=C05 tier=thorough kind=proof engine=paths inst="IndexOptimized<Vec<u32>,Vec<u64>>" bounds="pushes w, x, y unconstrained usize with w != 0, from empty" desc="other half of the input space: the stride recogniser rejects at once, everything spills"
+#[cfg(feature = "thorough")]
 #[cfg_attr(kani, kani::proof, kani::unwind(5))]
 pub fn c05_indexopt_seq3_nonzero() {
     container_seq_split::<IndexOptimized, K>(IndexOptimized::default(), false, usize::MAX, Some(false));
 }
 
 // @h prop=C05 tier=thorough kind=proof inst="IndexOptimized<Vec<u32>,Vec<u64>>" engine=paths bounds="pushes 0, x, y, z with x, y, z unconstrained usize" desc="as c05_indexopt_seq3_zero, longer"
+#[cfg(feature = "thorough")]
 #[cfg_attr(kani, kani::proof, kani::unwind(6))]
 pub fn c05_indexopt_seq4() {
     container_seq_split::<IndexOptimized, 4>(IndexOptimized::default(), false, usize::MAX, Some(true));
 }
 
-// @h prop=C05 tier=thorough kind=proof inst="IndexOptimized" bounds="one extend of 3 unconstrained values" desc="extend == repeated push"
+// @h prop=C05 tier=thorough kind=proof engine=both inst="IndexOptimized" bounds="one extend of 3 unconstrained values" desc="extend == repeated push"
+#[cfg(feature = "thorough")]
 #[cfg_attr(kani, kani::proof, kani::unwind(5))]
 pub fn c05_indexopt_extend3() {
     container_seq::<IndexOptimized, K>(IndexOptimized::default(), true, usize::MAX);
 }
 
-// @h prop=C05 tier=quick kind=proof inst="IndexList<Vec<u32>,Vec<u64>>" bounds="3 unconstrained usize pushes" desc="u32/u64 split faithful, large-before-small and small-before-large"
+// @h prop=C05 tier=quick kind=proof engine=both inst="IndexList<Vec<u32>,Vec<u64>>" bounds="3 unconstrained usize pushes" desc="u32/u64 split faithful, large-before-small and small-before-large"
 #[cfg_attr(kani, kani::proof, kani::unwind(5))]
 pub fn c05_indexlist_seq3() {
     container_seq::<IndexList<Vec<u32>, Vec<u64>>, K>(IndexList::default(), false, usize::MAX);
 }
 
-// @h prop=C05 tier=thorough kind=proof inst="IndexList<Vec<u32>,Vec<u64>>" bounds="4 unconstrained usize pushes" desc="as c05_indexlist_seq3, longer"
+// @h prop=C05 tier=thorough kind=proof engine=both inst="IndexList<Vec<u32>,Vec<u64>>" bounds="4 unconstrained usize pushes" desc="as c05_indexlist_seq3, longer"
+#[cfg(feature = "thorough")]
 #[cfg_attr(kani, kani::proof, kani::unwind(6))]
 pub fn c05_indexlist_seq4() {
     container_seq::<IndexList<Vec<u32>, Vec<u64>>, 4>(IndexList::default(), false, usize::MAX);
 }
 
-// @h prop=C05 tier=quick kind=proof inst="IndexList" bounds="one extend of 3 unconstrained values" desc="extend == repeated push"
+// @h prop=C05 tier=quick kind=proof engine=both inst="IndexList" bounds="one extend of 3 unconstrained values" desc="extend == repeated push"
 #[cfg_attr(kani, kani::proof, kani::unwind(5))]
 pub fn c05_indexlist_extend3() {
     container_seq::<IndexList<Vec<u32>, Vec<u64>>, K>(IndexList::default(), true, usize::MAX);
@@ -272,49 +281,49 @@ fn indexopt_after_prefix(prefix: &[usize]) {
     sym::forget(c);
 }
 
-// @h prop=C05 tier=quick kind=proof inst="IndexOptimized in Striding mode" bounds="prefix 0,3,6 then 2 unconstrained pushes" desc="mode-prefix harness"
+// @h prop=C05 tier=quick kind=proof engine=both inst="IndexOptimized in Striding mode" bounds="prefix 0,3,6 then 2 unconstrained pushes" desc="mode-prefix harness"
 #[cfg_attr(kani, kani::proof, kani::unwind(8))]
 pub fn c05_indexopt_mode_striding() {
     indexopt_after_prefix(&[0, 3, 6]);
 }
 
-// @h prop=C05 tier=quick kind=proof inst="IndexOptimized in Saturated mode" bounds="prefix 0,3,6,6 then 2 unconstrained pushes" desc="mode-prefix harness"
+// @h prop=C05 tier=quick kind=proof engine=both inst="IndexOptimized in Saturated mode" bounds="prefix 0,3,6,6 then 2 unconstrained pushes" desc="mode-prefix harness"
 #[cfg_attr(kani, kani::proof, kani::unwind(8))]
 pub fn c05_indexopt_mode_saturated() {
     indexopt_after_prefix(&[0, 3, 6, 6]);
 }
 
-// @h prop=C05 tier=quick kind=proof inst="IndexOptimized spilled to u32" bounds="prefix 0,3,5 then 2 unconstrained pushes" desc="mode-prefix harness"
+// @h prop=C05 tier=quick kind=proof engine=both inst="IndexOptimized spilled to u32" bounds="prefix 0,3,5 then 2 unconstrained pushes" desc="mode-prefix harness"
 #[cfg_attr(kani, kani::proof, kani::unwind(8))]
 pub fn c05_indexopt_mode_spilled32() {
     indexopt_after_prefix(&[0, 3, 5]);
 }
 
-// @h prop=C05 tier=quick kind=proof inst="IndexOptimized spilled to u64" bounds="prefix 0,3,2^40 then 2 unconstrained pushes" desc="mode-prefix harness"
+// @h prop=C05 tier=quick kind=proof engine=both inst="IndexOptimized spilled to u64" bounds="prefix 0,3,2^40 then 2 unconstrained pushes" desc="mode-prefix harness"
 #[cfg_attr(kani, kani::proof, kani::unwind(8))]
 pub fn c05_indexopt_mode_spilled64() {
     indexopt_after_prefix(&[0, 3, 1 << 40]);
 }
 
-// @h prop=C05 tier=quick kind=proof inst="IndexOptimized<Vec<u32>,Vec<u64>>" bounds="3 unconstrained pushes with a clear before the 2nd" desc="clear resets stride state and spill, later pushes faithful"
+// @h prop=C05 tier=quick kind=proof engine=both inst="IndexOptimized<Vec<u32>,Vec<u64>>" bounds="3 unconstrained pushes with a clear before the 2nd" desc="clear resets stride state and spill, later pushes faithful"
 #[cfg_attr(kani, kani::proof, kani::unwind(5))]
 pub fn c05_indexopt_seq3_clear1() {
     container_seq::<IndexOptimized, K>(IndexOptimized::default(), false, 1);
 }
 
-// @h prop=C05 tier=quick kind=proof inst="IndexOptimized<Vec<u32>,Vec<u64>>" bounds="3 unconstrained pushes with a clear before the 3rd" desc="clear resets stride state and spill, later pushes faithful"
+// @h prop=C05 tier=quick kind=proof engine=both inst="IndexOptimized<Vec<u32>,Vec<u64>>" bounds="3 unconstrained pushes with a clear before the 3rd" desc="clear resets stride state and spill, later pushes faithful"
 #[cfg_attr(kani, kani::proof, kani::unwind(5))]
 pub fn c05_indexopt_seq3_clear2() {
     container_seq::<IndexOptimized, K>(IndexOptimized::default(), false, 2);
 }
 
-// @h prop=C05 tier=quick kind=proof inst="IndexList<Vec<u32>,Vec<u64>>" bounds="3 unconstrained pushes with a clear before the 2nd" desc="clear empties both lists, u32 path is available again"
+// @h prop=C05 tier=quick kind=proof engine=both inst="IndexList<Vec<u32>,Vec<u64>>" bounds="3 unconstrained pushes with a clear before the 2nd" desc="clear empties both lists, u32 path is available again"
 #[cfg_attr(kani, kani::proof, kani::unwind(5))]
 pub fn c05_indexlist_seq3_clear1() {
     container_seq::<IndexList<Vec<u32>, Vec<u64>>, K>(IndexList::default(), false, 1);
 }
 
-// @h prop=C05 tier=quick kind=proof inst="IndexList<Vec<u32>,Vec<u64>>" bounds="3 unconstrained pushes with a clear before the 3rd" desc="clear empties both lists, u32 path is available again"
+// @h prop=C05 tier=quick kind=proof engine=both inst="IndexList<Vec<u32>,Vec<u64>>" bounds="3 unconstrained pushes with a clear before the 3rd" desc="clear empties both lists, u32 path is available again"
 #[cfg_attr(kani, kani::proof, kani::unwind(5))]
 pub fn c05_indexlist_seq3_clear2() {
     container_seq::<IndexList<Vec<u32>, Vec<u64>>, K>(IndexList::default(), false, 2);
